@@ -7,7 +7,9 @@
 (* An update is abstracted to a record c:                                  *)
 (*   n        number of node entries                                       *)
 (*   shape    the transaction envelope: "ok" or one structural defect      *)
-(*   order    "sorted" | "swap" (two adjacent entries exchanged) | "reversed"*)
+(*   order    "sorted" | "swap" (two adjacent inner entries exchanged) |    *)
+(*            "swapFirst" / "swapLast" (the first / last pair exchanged) | *)
+(*            "minLast" (the smallest key moved to the end) | "reversed"   *)
 (*   dup      "none" | "custodian" (two entries with one custodian key) |  *)
 (*            "payee" (two entries with one payee key) | "cross" (a payee  *)
 (*            key equal to another entry's custodian key) | "self" (an     *)
